@@ -176,7 +176,11 @@ type Case struct {
 	TTLMulti int    `json:"ttl_multi,omitempty"`
 	Coq      string `json:"coq,omitempty"`
 
+	Damage bool   `json:"damage,omitempty"` // Loki JSON: one edit is applied to the document tree before it is rendered
+	CoqJ   string `json:"coqj,omitempty"`   // Loki JSON: the case with its document tree (jcase of coq/model/LokiJson.v)
+
 	members [][]member // Loki JSON: the members of every stream object in the order they were written
+	doc     *JV        // Loki JSON: the document
 }
 
 // ---------------------------------------------------------------- running the real parsers
@@ -463,6 +467,11 @@ func run(c *Case) {
 	c.NRows = countEntries(c)
 	c.TTLMulti = ttlMulti(c)
 	c.Coq = coqCase(c)
+	c.CoqJ = ""
+	if c.Proto == "loki_json" && c.doc != nil {
+		rfc, ls, ds := docOracles(*c.doc)
+		c.CoqJ = fmt.Sprintf("JCase (%s)\n    %s %v %s %s %s", c.Coq, c.doc.coq(), !c.Damage, rfc, ls, ds)
+	}
 }
 
 func countEntries(c *Case) int {
@@ -526,6 +535,20 @@ func main() {
 		return
 	}
 	r := hx.Rand(f.Seed)
+	if os.Getenv("C03_ONLY") == "lokidoc" {
+		// small Loki JSON documents only, two of three with one edit in the tree: volume for the walk of model/LokiJson.v
+		for i := 0; i < f.N; i++ {
+			c := Case{ID: 3000000 + i, WSeed: r.Int63(), Proto: "loki_json"}
+			genLoki(r, &c, false)
+			if i%3 != 0 {
+				c.Damage = true
+				flag(&c, "damaged-document")
+			}
+			run(&c)
+			out.Put(c)
+		}
+		return
+	}
 	for i := 0; i < f.N; {
 		var cs []Case
 		if every := envInt("C03_HISTORY_EVERY", 16); i%every == 5%every {
